@@ -39,7 +39,7 @@ Theorem fl_rate_zero_when_weight_zero : forall p (e : est FL.F) now,
   est_weight (FL.arp p) (dur_secs (FL.arp p) (since now (start_time e))) = fzero64 ->
   is_zero (FL.arp p) (est_sps (FL.arp p) e now) = true.
 Proof.
-  intros p e now Hs Hd H1 H2. unfold est_sps. rewrite H1, H2, fl_one_minus_zero.
+  intros p e now Hs Hd H1 H2. unfold est_sps. cbv zeta. change (T (FL.arp p)) with FL.F in *. rewrite H1, H2, fl_one_minus_zero.
   destruct (sm e) as [s1| | |s1 m1 e1 B1]; try discriminate Hs;
     destruct (dsm e) as [s2| | |s2 m2 e2 B2]; try discriminate Hd;
     destruct s1, s2; vm_compute; reflexivity.
